@@ -392,7 +392,32 @@ pub struct Connect {
     pub password: Option<Vec<u8>>,
 }
 
-#[derive(Clone, Debug, PartialEq, Eq)]
+/// (Debug abbreviates long payloads to their length and a hash: traces are hashed and printed through
+/// Debug, and a payload may be hundreds of MiB long; equality compares every byte)
+impl std::fmt::Debug for Publish {
+    fn fmt(&self, f: &mut std::fmt::Formatter<'_>) -> std::fmt::Result {
+        let mut d = f.debug_struct("Publish");
+        d.field("dup", &self.dup)
+            .field("qos", &self.qos)
+            .field("retain", &self.retain)
+            .field("topic", &self.topic)
+            .field("pid", &self.pid)
+            .field("props", &self.props);
+        if self.payload.len() > 64 {
+            let mut h = 0xcbf29ce484222325u64;
+            for b in &self.payload {
+                h ^= *b as u64;
+                h = h.wrapping_mul(0x100000001b3);
+            }
+            d.field("payload", &format_args!("[{}B#{:016x}]", self.payload.len(), h));
+        } else {
+            d.field("payload", &self.payload);
+        }
+        d.finish()
+    }
+}
+
+#[derive(Clone, PartialEq, Eq)]
 pub struct Publish {
     pub dup: bool,
     pub qos: u8,
